@@ -4,7 +4,8 @@
 usage: selftest/run.py [prop ...]   exit 0 iff every mutant is caught"""
 import json, os, subprocess, sys, shutil, concurrent.futures
 V='/verif'
-corpus=json.load(open(f'{V}/selftest/corpus.json'))
+import glob
+corpus=[json.load(open(f)) for f in sorted(glob.glob(f'{V}/selftest/corpus.d/*.json'))]
 want=set(sys.argv[1:])
 def run(e):
     d=f"{V}/.work/selftest/{e['id']}"
